@@ -345,8 +345,15 @@ func (in *Instance) GetAlerts(query string) ([]AlertOut, error) {
 	return out, json.Unmarshal(body, &out)
 }
 
-func (in *Instance) GetGroups() ([]GroupOut, error) {
-	code, body, err := in.do("GET", "/api/v2/alerts/groups", nil)
+func (in *Instance) GetGroups() ([]GroupOut, error) { return in.GetGroupsQ("") }
+
+// GetGroupsQ: with a raw query string, e.g. "muted=false".
+func (in *Instance) GetGroupsQ(query string) ([]GroupOut, error) {
+	p := "/api/v2/alerts/groups"
+	if query != "" {
+		p += "?" + query
+	}
+	code, body, err := in.do("GET", p, nil)
 	if err != nil {
 		return nil, err
 	}
